@@ -1,5 +1,6 @@
 import PV.Model.Labels
 import PV.Proofs.Strip
+import PV.Proofs.StripTy
 /-!
 # C05 — every jump lands where it was meant to   (labels and their removal)
 
@@ -169,6 +170,21 @@ theorem initial_states_related {R V : Type} (L : Nat → Bool) (regs : R → V) 
     PV.Strip.Sim L (⟨regs, mem, 0, [], false⟩ : PV.IC10.St R V) ⟨regs, mem, 0, [], false⟩ :=
   ⟨rfl, rfl, rfl, rfl, rfl⟩
 
+open PV.IC10 in
+/-- **label removal preserves behaviour, programs with calls included**: if on a run of the labelled program no line number is
+    ever used as a value (`tyRun` succeeds for its first `m` steps — `jal` marks `ra`, `push`/`pop`/`put`/`get` move the mark
+    with the value, `j r` needs a marked `r`, every other use needs unmarked operands), the label-free program reaches in at most
+    `m` steps a state with the same effect trace and the same halting flag.  `harness/c05.py` (`strip-run`) evaluates `tyRun`
+    on the runs it performs on REAL output pairs. -/
+theorem label_removal_preserves_traces_typed {R V : Type} [DecidableEq R] [Special R] (sem : Sem V) (L : Nat → Bool) (lit : Nat → V)
+    (env : Env V) (P : List (Instr R V)) (hsp : (Special.sp : R) ≠ Special.ra) (hok : PV.Strip.OkT sem L lit P)
+    (regs : R → V) (mem : Nat → V) (m : Nat)
+    (hwt : (PV.Strip.tyRun sem env P L m (⟨regs, mem, 0, [], false⟩ : St R V) PV.Strip.Ty.none).isSome = true) :
+    ∃ k, k ≤ m ∧
+      (run sem env (PV.Strip.strip sem lit L P) k ⟨regs, mem, 0, [], false⟩).trace = (run sem env P m ⟨regs, mem, 0, [], false⟩).trace ∧
+      (run sem env (PV.Strip.strip sem lit L P) k ⟨regs, mem, 0, [], false⟩).halted = (run sem env P m ⟨regs, mem, 0, [], false⟩).halted :=
+  PV.Strip.strip_traces_typed sem L lit env P hsp hok regs mem m hwt
+
 /-! non-vacuity: `loop: s … ; j loop` on integers satisfies the hypotheses, and its stripped form jumps to line 0 -/
 section demo
 open PV.IC10
@@ -202,6 +218,13 @@ example : PV.Strip.strip demoSem (fun n => (n : Int)) demoL demoP =
     [⟨.yield, none, []⟩, ⟨.store "s", none, [.num 1]⟩, ⟨.jmp, none, [.num 1]⟩] := by
   simp [PV.Strip.strip, PV.Strip.stripFrom, demoL, demoP, PV.Strip.renum, PV.Strip.isDirect, PV.Strip.renumLast, PV.Strip.renumOpnd,
     demoSem, PV.Strip.rho]
+
+
+/-- a program with a call: `jal f ; hcf ; f: ; s … ; j ra` — its first 6 steps are well typed -/
+def demoCall : List (Instr Nat Int) :=
+  [⟨.jal, none, [.num 2]⟩, ⟨.hcf, none, []⟩, ⟨.nop, none, []⟩, ⟨.store "s", none, [.num 1]⟩, ⟨.jmp, none, [.reg 17]⟩]
+example : (PV.Strip.tyRun demoSem (fun _ _ _ => 0) demoCall (fun i => i == 2) 6 (⟨fun _ => 0, fun _ => 0, 0, [], false⟩ : St Nat Int)
+    PV.Strip.Ty.none).isSome = true := by decide
 
 end demo
 
